@@ -245,6 +245,8 @@ template <typename TN_, typename TA_, typename TH_, typename... TS_>
 HFSM2_CONSTEXPR(14)
 void
 O_<TN_, TA_, TH_, TS_...>::deepExit(PlanControl& control) noexcept {
+	ScopedRegion region{control, REGION_ID, HEAD_ID, REGION_SIZE};
+
 	SubStates::wideExit(control);
 	HeadState::deepExit(control);
 }
